@@ -602,12 +602,24 @@ def gen_newreq_program(rng):
             head = m
         body = ('Q', head, (0 if rng.random() < 0.85 else 2), body)
     p.tasks[1] = body
-    steps = [['E', str(i), '0'] for i in range(k + 1)]
+    # an independent scheduled chain M -> L (... -> L'), unrelated to B: it sits in the queue while B's dependencies are pulled out of it
+    chain = []
+    extra_srcs = []
+    if rng.random() < 0.7:
+        n = rng.randint(2, 3)
+        ids = list(range(tid, tid + n)); tid += n
+        for j, c in enumerate(ids):
+            src = k + 2 + j
+            p.sources.append(src); extra_srcs.append(src)
+            nxt = ('Q', ids[j + 1], 0, ('T', ('a',))) if j + 1 < n else ('T', ('a',))
+            p.tasks[c] = ('R', src, 0, nxt)
+        chain = ids
+    steps = [['E', str(i), '0'] for i in range(k + 1)] + [['E', str(x), '0'] for x in extra_srcs]
     if shared is not None: steps.append(['E', str(shared), '3'])
-    first = [['S', '1', 'q', '0'], ['S', '1', 'q', '1']]
-    if rng.random() < 0.5: first.reverse()
+    first = [['S', '1', 'q', '0'], ['S', '1', 'q', '1']] + ([['S', '1', 'q', str(chain[0])]] if chain else [])
+    rng.shuffle(first)
     steps += first
-    changed = [0] + [1 + i for i in range(k) if rng.random() < 0.85]
+    changed = [0] + [1 + i for i in range(k) if rng.random() < 0.85] + [x for x in extra_srcs if rng.random() < 0.9]
     for r in changed:
         steps.append(['E', str(r), '1'])
     rng.shuffle(changed)
